@@ -145,6 +145,11 @@ type Interp struct {
 	spec         int
 	allocLimit   int64
 	known        map[*Term]uint64
+	sealSeq      int
+	seals        []*sealRec
+	sealHook     Value
+	openOracle   Value
+	hkdfs        []*hkdfRec
 }
 
 type Stats struct {
@@ -294,6 +299,10 @@ func (in *Interp) sentinelInit(pkg *ssa.Package) {
 			continue
 		}
 		et := mustDeref(g.Type())
+		if pkg.Pkg.Path() == "crypto/rand" && name == "Reader" {
+			*in.globals[g] = Iface{t: nativeObjType, v: &Native{kind: "randreader"}}
+			continue
+		}
 		if types.Identical(et, in.errType) {
 			*in.globals[g] = in.newError(pkg.Pkg.Path() + "." + name)
 		}
